@@ -15,7 +15,7 @@ CLAIMS = {
         text="spec/FrameIndiff.tla (an instance of Geometry.tla) models a problem as four frames - mesh, material / beam-section axes, constraints, loads - moved together by exact rational isometries; TLC checks AllFramesEqual and the "
         "isometry invariants over all motion sequences and rejects a motion that forgets one part. Every TLC frame is replayed as a metamorphic test on the real code: elastic (isotropic, orthotropic with moved axes; static and one Newmark step), "
         "thermal, Euler-Bernoulli and Timoshenko cantilevers in 2D and 3D - the moved problem is meshed/moved with the public motions, constrained and loaded in the moved frame, solved, and compared with the transformed baseline solution "
-        "(vectors rotated, beam rotations as axial vectors incl. the determinant for reflections, energies equal) at 1e-8.",
+        "(vectors rotated, beam rotations as axial vectors incl. the determinant for reflections, energies equal) at 1e-8. Beam problems are multiplied by the forms of FrameIndiff.tla (BeamForms): section y axis perpendicular to the member or oblique in the plane (member, vertical); load at the tip or per unit length.",
         note="Trusted: TLC for the exact isometries. The baseline numbers come from the implementation itself in the identity frame (metamorphic), so a defect that is itself frame-indifferent is invisible here (C01/C02 cover those). HyperElastic is not in the problem list yet.",
         technique="TLA+ group-action model enumerated by TLC; each isometry replayed as a metamorphic solve on the real code",
         design_ref="DESIGN.md 6/C10",
@@ -34,7 +34,7 @@ CLAIMS = {
         text="spec/Loads.tla enumerates (dimension, load kind {line, surface, volume, pressure, concentrated}, region {edges, faces, a 3-D edge, the bulk of the integer box}, polynomial density of degree 0-2 per direction, thickness, "
         "value form {constant, function of position, nodal array}, stray interior nodes in the selection, node listed twice) and computes resultant and first moments in exact rationals (monomial integrals over intervals). Each TLC state is "
         "replayed on gmsh meshes of every element type of that dimension for Elastic (and Thermal) through add_lineLoad / add_surfLoad / add_volumeLoad / add_pressureLoad / add_neumann; Bc_vector_Neumann() is summed per direction and its first "
-        "moments compared at 1e-10; stray nodes must receive nothing. Hermitian line loads on Euler-Bernoulli / Timoshenko beams: resultant and moment (incl. nodal couples).",
+        "moments compared at 1e-10; stray nodes must receive nothing. Beams are states of the same module (BeamCases): a force per unit length given by its global components on members aligned with x or inclined in the plane / in space, Euler-Bernoulli and Timoshenko - resultant 3 q and moment (9/2) t x q counting nodal forces and couples.",
         note="Trusted: TLC for the exact integrals, gmsh box meshes. First moments are compared for densities of degree <= 1, resultants up to degree 2 (exactness of the mass rules); pressure is compared in magnitude and direction up to the sign convention.",
         technique="TLA+ exact-integral model enumerated by TLC; each state replayed through the load API on every element type",
         design_ref="DESIGN.md 6/C09",
@@ -43,14 +43,14 @@ CLAIMS = {
         text="spec/Pipeline.tla enumerates the configuration product (elasticity 2D/3D and heat conduction x element type x law {isotropic, transversely isotropic, orthotropic, anisotropic with rotated axes} x plane stress / plane strain x mesh kind "
         "{unstructured, renumbered, mixed TRI3+QUAD4 / prism boundary} x affine map {identity, shear+stretch, orientation-reversing} x basis of linear fields + a combination; Euler-Bernoulli and Timoshenko beams on SEG2..SEG5 in 1D/2D/3D with "
         "constant axial strain / constant curvature) and states the exact expectations (constant strain sym(G), measure |det A| x shoelace area x height, N = EA e, M = EI kappa). Every TLC state is replayed: integer pentagon (or its extrusion) "
-        "meshed by gmsh, mapped, optionally renumbered, field prescribed on the whole boundary by functions of position, Solve(); nodal values at interior nodes, reported strain, stress (through S sigma = eps), energy and beam internal forces are compared at 1e-9.",
+        "meshed by gmsh, mapped, optionally renumbered, field prescribed on the whole boundary by functions of position, Solve(); nodal values at interior nodes, reported strain, stress (through S sigma = eps), energy and beam internal forces are compared at 1e-9. The form of the boundary data (functions, nodal arrays, nodal arrays on a permuted node list) and the solver path (elimination, or Lagrange multipliers: a tie satisfied by the exact field / two welded beam members, with non-zero prescribed values) are dimensions of the product.",
         note="Trusted: TLC (enumeration, exact strain / measure / beam forces), the compliance validated by C11 as stress oracle, gmsh meshes (vacuity guard: every mesh must have interior nodes). Quick tier: a seeded half of the product (4+3 element types), thorough: all 15.",
         technique="TLA+ configuration/expectation model enumerated by TLC; each state replayed through the real solve pipeline",
         design_ref="DESIGN.md 6/C01",
     ),
     "C11": dict(
         text="spec/ElasticLaws.tla computes in exact rationals the compliance (engineering notation, global axes) of every case: isotropic, transversely isotropic, orthotropic (documented compliances in material axes) "
-        "and anisotropic (given law, Voigt and Kelvin-Mandel input), rotated by exact rational frames (in-plane, about y, generic 3-D quaternion rotations, axis permutation) through the Bond strain transformation, 3D and the "
+        "and anisotropic (given law, Voigt and Kelvin-Mandel input, and a whole-number law C = L L^T with normal-shear coupling given as an INTEGER array), rotated by exact rational frames (in-plane, about y, generic 3-D quaternion rotations, axis permutation) through the Bond strain transformation, 3D and the "
         "plane-stress sub-block, with unit and non-unit axis vectors. The compliance the library reports is converted from Kelvin-Mandel to engineering components, snapped to rationals and compared EXACTLY by TLC (a TLC "
         "mismatch that the floats do not confirm at 1e-10 is a machinery error, never a verdict). On the same cases: stiffness symmetric positive definite, C S = I, plane strain = sub-block of the inverse of the exact 3-D "
         "compliance, change-of-basis matrices orthogonal (also for non-unit axes), parameter change visible at the next read, per-element parameter fields.",
@@ -99,7 +99,7 @@ CLAIMS = {
         text="spec/Splits.tla builds, in exact rational arithmetic, a lattice of strain states (every multiplicity / sign pattern of the principal values in 2-D and 3-D, zero, hydrostatic, uniaxial, "
         "rotated by rational rotations) together with the exact Miehe split (sigma+, psi+) and checks the partition relations on the model; the states are replayed MIXED inside elements through "
         "Calc_Sigma_e_pg / Calc_psi_e_pg for all 14 splits x regularisations x isotropic / transversely isotropic materials (finite, sigma+ + sigma- = C:eps, psi+ + psi- = psi, exact values for Miehe/Bourdin), "
-        "then float neighbours of every lattice state (random rotations, symmetric noise 0..1e-4) are compared with a split built on numpy.linalg.eigh. spec/PhaseFieldHist.tla enumerates load / unload programs; each "
+        "then float neighbours of every lattice state (random rotations, symmetric noise 0..1e-4) are compared with a split built on numpy.linalg.eigh. Splits.tla also proves positive homogeneity of the exact split on the lattice (k = 1/2, 3) and names the strain magnitudes (1, 1e-3, 1e-6, 1e-9) at which every state and its neighbours are replayed - no absolute strain scale may hide in the code. spec/PhaseFieldHist.tla enumerates load / unload programs; each "
         "is run on a real PhaseField simulation per irreversibility solver, reduced to counts per saved step and validated by Trace_PhaseFieldHist.tla (history never decreases; damage never decreases for damage-based solvers; no load, no damage; 0 <= d <= 1).",
         note="Trusted: TLC and Rat.tla arithmetic, numpy.linalg.eigh for the float neighbourhoods (1e-3 relative there, 1e-9 on the exact lattice), a 3x3 QUAD4 simulation as the history bed. Exact split values exist for Miehe and Bourdin; other splits are decided for finiteness and the partition relations.",
         technique="TLC-enumerated exact strain lattice and load programs replayed into the implementation (model-based test generation) + recorded step traces validated by a TLA+ trace spec",
@@ -120,7 +120,7 @@ CLAIMS = {
         "ufuncs, @, dot, ddot, .T, reductions over every axis, Det/Inv/Trace/Transpose and coefficient broadcasting for every operand descriptor with Ne, nPg and tensor sizes "
         "in {1,2,3} (all size coincidences) and ranks 0-2 (quick) / 0-4 (thorough); TLC checks the type rule on the table and enumerates it. Every TLC state is one implementation "
         "test: arrays of those shapes are built, the operation is run (6 ufuncs for the element-wise case), exceptions must coincide with Error, type and shape with the "
-        "descriptor, and the values with explicit loops over (e, p) on plain arrays; Field objects on either side of the operators are compared with their arrays.",
+        "descriptor, and the values with explicit loops over (e, p) on plain arrays; Field objects on either side of the operators are compared with their arrays. Also in the table: a constant on the left of @, partial fields (one value per element / per Gauss point), reducers reached as methods, numpy functions and library wrappers, masked ufuncs, and the tensor product of two fields (vectors, matrices, symmetrised matrices - values index by index).",
         note="Trusted: TLC, the transcription of the two documented rules, numpy on plain per-point slices as value oracle. Contracted axes have size > 1; both field operands share (Ne, nPg).",
         technique="TLA+ rule table enumerated exhaustively by TLC, one implementation test per state (type, shape, values)",
         design_ref="DESIGN.md 6/C12",
@@ -129,7 +129,7 @@ CLAIMS = {
         text="spec/Spectrum.tla enumerates every (physics, dimension, element type, density, thickness) configuration - elasticity 2D/3D on the 15 surface/volume types, heat conduction on "
         "all 19 types incl. segments, Euler-Bernoulli and Timoshenko beams on SEG2..SEG5 in 1D/2D/3D (inclined members) - and states the expected attributes exactly: kernel dimension, "
         "definiteness class of the mass matrix, mass total rho*measure*thickness as a rational. Each TLC state is built with the real code and analysed densely: symmetry, inertia, "
-        "number of zero-energy modes equal to the expected one, K r = 0 for the translations and infinitesimal rotations, M definite / semi-definite, entry sums.",
+        "number of zero-energy modes equal to the expected one, K r = 0 for the translations and infinitesimal rotations, M definite / semi-definite, entry sums. Members are drawn towards every quadrant, and continuum configurations exist on the integer box and on a disk / cylinder whose elements of degree >= 2 have curved edges (non-constant Jacobian inside simplices).",
         note="Trusted: dense eigvalsh with threshold 1e-9*lambda_max; meshes of integer boxes (2 meshes per configuration in the thorough tier). TLC's role is enumeration, the exact expected values and coverage accounting; "
         "the numerical attributes are computed from the implementation's matrices.",
         technique="TLA+ attribute table enumerated by TLC, each state replayed as a dense spectral analysis of the real matrices",
@@ -139,7 +139,7 @@ CLAIMS = {
         text="The exact coefficient vectors of all tabulated shape functions and derivative tables (19 Lagrange families, orders 1-4 of derivatives; 4 Hermite beam families) are extracted from the "
         "library's own callables with a polynomial-ring probe and handed to TLC as a trace; spec/ShapeTables.tla decides, as identities between polynomials (hence at every point of the reference "
         "element), Kronecker, partition of unity, reproduction of all monomials up to the order, derivative-table = derivative, and the Hermite value/slope pattern. The evaluation path "
-        "(Get_N_pg, Get_dN_pg, ... , Get_Hermitian_*_pg) is compared with the polynomials at all Gauss points.",
+        "(Get_N_pg, Get_dN_pg, ... , Get_Hermitian_*_pg) is compared with the polynomials at all Gauss points, and the evaluator behind them at the reference nodes exactly as Get_Local_Coords() returns them (integer arrays for some types), as floats and at an integer point typed int.",
         note="Trusted: TLC, the polynomial-ring probe (Fraction arithmetic), snapping of coefficients to rationals with denominator <= 1e6 within 1e-11 (literal round-off recorded in the evidence). Exhaustive over all tables.",
         technique="exact table extraction validated by a TLA+ specification of the polynomial identities (trace validation, exhaustive)",
         design_ref="DESIGN.md 6/C06",
@@ -148,18 +148,18 @@ CLAIMS = {
         text="Every rule the library offers (segments 1-8 points, triangles 1/3/6/7/12, quadrangles 4/9, tetrahedra 1/4/5/15, hexahedra 8/27, prisms 6/8/21) is recorded - weight sum, smallest barycentric "
         "coordinate, moments of all monomials up to documented order + 2 snapped at 1e-13 - and spec/Quadrature.tla decides it against exact reference integrals (factorial formulas) and the documented orders; "
         "measured orders are reported. Mesh level: measure, centroid and second moments of integer boxes for all 19 element types against exact rationals; the rank consequence is decided by the dense kernel analysis "
-        "shared with C02 (stiffness / conductivity of every element type on assembled meshes).",
+        "shared with C02 (stiffness / conductivity of every element type on assembled meshes). Every rule is also used through an element group (Get_weightedJacobian_e_pg(n), Integrate_e(f, n)) on as-meshed and reflected boxes, meshes are re-coordinated in place by an affine map, and hand-built groups with integer / float32 coordinate arrays must measure what the same points measure as floats.",
         note="Trusted: TLC, snapping tolerance 1e-13 with denominators <= 1e6 (unambiguous), straight-sided box meshes. The single-element counting condition is reported as a diagnostic only.",
         technique="rule tables validated by a TLA+ specification with exact reference integrals (trace validation, exhaustive) + replay of mesh-level integrals",
         design_ref="DESIGN.md 6/C07",
     ),
     "C04": dict(
         text="spec/Constraints.tla computes, in exact rationals, the solution of every sequence of up to 3 (quick) / 4 (thorough) Dirichlet and point-load conditions on three "
-        "systems (scalar chain; two dofs per node with unknown names given in any order; chain with an orphan node): dof lookup node*dof_n+index, sum convention for a dof "
+        "systems (scalar chain; two dofs per node with unknown names given in any order; chain with an orphan node) plus a diffusion-advection chain whose operator is NOT symmetric: dof lookup node*dof_n+index, sum convention for a dof "
         "entered several times, even split of point loads, unit diagonal on orphan dofs, reduced solve by Cramer. TLC checks the definition's own consistency (prescribed "
         "sums, equilibrium of free rows). Every TLC behaviour is replayed through add_dirichlet/add_neumann (constants, arrays, functions of position) and Solve() with "
         "scipy, cg, bicg, gmres, lgmres, bounded least squares, the Lagrange-multiplier route and the Newton-incremental route; the returned vector and "
-        "Bc_vector_Dirichlet() are compared with TLC's rationals.",
+        "Bc_vector_Dirichlet() are compared with TLC's rationals. spec/Newton.tla models the Newton-incremental driver itself (test read before the update on |R|, |R|/|R_1|, |du|; first hit; refusal after maxIter) on a one-dof problem with an inexact tangent of contraction q; TLC checks that a returning solve has a residual below the bound of the criterion that fired and that no solve fails although a criterion was met, and every terminal state (432) is run through the real Solve(): status, and - as evidence - iteration count, iterate, recorded norms, assemblies and the state left by a refused solve.",
         note="Trusted: TLC, float-vs-rational comparison (1e-10 direct, 1e-4 Krylov). Lagrange route only when no dof is constrained twice (bordered system singular otherwise); "
         "empty reduced systems are not sent to lsq_linear/lgmres. K is supplied by a _Simu subclass. PETSc/pypardiso are not installed.",
         technique="TLA+ exact-rational model of constraint bookkeeping and reduced solve, TLC exhaustive; behaviours replayed into Solve() with every back end",
@@ -171,7 +171,7 @@ CLAIMS = {
         "complex values, system-size changes (Lagrange/Dirichlet rows) and mesh replacement between assemblies. TLC checks Exact (every assembled K, C, M, F equals the "
         "definition of the scatter-add) on every reachable state, a renumbering theorem (P A P^T), and rejects three defective key designs. TLC behaviours are replayed on "
         "a _Simu subclass returning the same integer element arrays: Assembly() output is compared bit for bit with TLC's matrices and the memo size with the model; real "
-        "Elastic/Thermal simulations (incl. a mixed-group mesh) are compared with an independent dense loop on first and repeated assemblies.",
+        "Elastic/Thermal simulations (incl. a mixed-group mesh) are compared with an independent dense loop on first and repeated assemblies. spec/IndexWidth.tla proves on scaled-down widths that the row-major slot keys r N + c are exact / monotone exactly when N^2 fits the integer type they are computed in (and rejects the claim that injectivity is enough); at real scale a 48 000-dof system built from 32-bit and from 64-bit connectivity must equal the coordinate-format sum formed with 64-bit indices.",
         note="Trusted: TLC, the element-value function shared by model and harness, exactness of integer sums in floating point. Simulation-mode sampling of histories (seeded) on top of "
         "the exhaustive bounded model.",
         technique="TLA+ model of memoised assembly, TLC exhaustive + defective variants; TLC behaviours replayed bit-for-bit into Assembly()",
@@ -184,11 +184,11 @@ CLAIMS = {
         "configurations (1 and 2 simulations sharing model and mesh) and rejects five deliberately defective variants. TLC simulation-mode behaviours are replayed "
         "on real Elastic, Thermal and harness simulations: after every action the abstraction of the concrete state (flag, iteration count, current mesh, store) is "
         "compared with the specification state, and at every observing action K, C, M, F, the solution and named results are compared with a fresh simulation "
-        "built independently in the final configuration. Adapters: Elastic 2-D / 3-D, Thermal, Beam (2-D frame; mesh replacement replayed separately because a Beam simulation copies its meshes) and a harness _Simu subclass. "
+        "built independently in the final configuration. Adapters: Elastic 2-D / 3-D (scalar and per-element parameters), Thermal, Beam (welded 2-D frame), WeakForms, HyperElastic, PhaseField and a harness _Simu subclass; fixed scenarios for what the generated behaviours cannot express (Beam mesh and cross-section replacement, PhaseField history and InElastic internal variables across a mesh replacement). Every replay section reports how many solves were compared and how many configurations were singular on both sides; a section comparing none is a machinery error. "
         "Direction B: wrappers installed from /verif record Assembly / Get_K_C_M_F / Save_Iter / Set_Iter events with a configuration fingerprint while the repository's own tests run (122 tests quick, tests/Simulations + tests/Models thorough); "
         "Trace_Lifecycle.tla judges every event (NoStale, FlagHonoured, AppendOnly, PureRead) and must reject a corrupted copy of the trace.",
         note="Trusted: TLC; the adapters' mapping of abstract actions to API calls; the fresh-build oracle (new mesh object from the harness's own shadow coordinates); the configuration fingerprint of the recorder. "
-        "Random-walk sampling of behaviours (seeded), not a transition cover; PhaseField/HyperElastic/InElastic/WeakForms adapters are growth items (their caches are reached by direction B only).",
+        "Random-walk sampling of behaviours (seeded), not a transition cover.",
         technique="TLA+ life-cycle specification, TLC exhaustive + negative variants; TLC behaviours replayed into real simulations with per-step abstraction comparison (direction A) + events recorded while the repository's own tests run validated by Trace_Lifecycle.tla (direction B)",
         design_ref="DESIGN.md 6/C14",
     ),
@@ -197,7 +197,7 @@ CLAIMS = {
         "defective variants (memo kept across a mesh-switching restore; iteration saved with the wrong mesh index). Store-centred TLC behaviours (Solve, Save_Iter, folder "
         "changes, Set_Iter, Get_results, mesh replacement, scheme switch, Save/Load_Simu round trip) are replayed on real simulations; after every action every stored "
         "iteration is re-read and compared with the snapshot taken by the harness when it was saved, restored fields and mesh are compared with the snapshot, reads must "
-        "leave the state fingerprint unchanged.",
+        "leave the state fingerprint unchanged. Simulations whose stored iterations carry internal variables (InElastic) are driven by spec/InelasticCommit.tla: behaviours with Solve / SaveIter / SetIter / GetResults in every order, content hashes of displacement and committed state against the specification's tokens (the trial state of each Solve carries a token, so every SaveIter is judged by Commit).",
         note="Trusted: TLC, the harness's snapshots. Velocities/accelerations are required from a stored iteration only when saved and restored under a dynamic scheme. "
         "After a restore that switches mesh the environment re-enters boundary conditions (modelled explicitly in SetIter).",
         technique="TLA+ iteration-store specification (action properties), TLC exhaustive; TLC behaviours replayed into real simulations against shadow snapshots + Save_Iter / Set_Iter events of the repository's tests validated by Trace_Lifecycle.tla",
